@@ -174,6 +174,9 @@ class FakeSelect:
         if env.select_budget <= 0:
             raise StopLoop()
         env.select_budget -= 1
+        step = getattr(env, "select_step", 0)
+        if step:
+            env.now += step         # (a busy loop: each select() returns after `step` seconds, several passes within one call)
         hook = getattr(env, "during_select", None)
         if hook is not None:
             env.during_select = None
